@@ -260,7 +260,8 @@ theorem ksub_setSex (fl : Flags) {i : Nat} (v : Str) {s : St} (hi : i < s.heap.l
 theorem ksub_docAppend (fl : Flags) (s : St) (x : NodeRec) (hx : x.kids = []) :
     KSub (abs s) (abs (docAppend fl x s)) := by
   intro m d hd
-  have : (abs (docAppend fl x s)).kids m = (abs (alloc x s)).kids m := rfl
+  have : (abs (docAppend fl x s)).kids m = (abs (alloc x s)).kids m := by
+    unfold docAppend; split <;> rfl
   rw [this] at hd
   exact ksub_alloc s x hx m d hd
 
